@@ -878,11 +878,11 @@ func fsC05Scenarios(thorough bool) []*fsScenario {
 	return out
 }
 
-// fsGenScripts: every script of 1..maxLen packs over the pack alphabet {ins, del, ins+del, tick-only} x the distance of
+// fsGenScripts: every script of 1..maxLen packs over the pack alphabet {ins, del, ins+del, tick-only, ins above the batcher's size threshold} x the distance of
 // the pack from the closing tick before it {same millisecond (logical part only), +1 ms, +10 ms}. Hybrid timestamps stay
 // legal: data is newer than the tick before it and not newer than its own closing tick.
 func fsGenScripts(maxLen int) (names []string, scripts [][]fsPack) {
-	kinds := []string{"i", "d", "x", "t"}
+	kinds := []string{"i", "d", "x", "t", "b"}
 	steps := []struct {
 		n  string
 		ms int64
@@ -915,6 +915,8 @@ func fsGenScripts(maxLen int) (names []string, scripts [][]fsPack) {
 					p = fsPack{Msgs: []fsMsg{{Kind: "ins", Ms: m, Lg: l}, {Kind: "del", Ms: m, Lg: l + 1}}, TickMs: m, TickLg: l + 2}
 				case "t":
 					p = fsPack{TickMs: m, TickLg: l}
+				case "b": // an insert above the batcher's size threshold
+					p = fsPack{Msgs: []fsMsg{{Kind: "bigins", Ms: m, Lg: l}}, TickMs: m, TickLg: l + 1}
 				}
 				rec(name+k+st.n, append(script, p), p.TickMs, p.TickLg)
 			}
@@ -945,10 +947,13 @@ func fsC05Generated(thorough bool) []*fsScenario {
 			if mc > len(script)+1 {
 				continue // the batch never fills: same behaviour as the next smaller size
 			}
+			if mc == 1 && strings.Contains(names[i], "b") {
+				continue // batches of one: the size threshold never decides anything
+			}
 			for _, mode := range []string{"crash", "down", "store", "pause"} {
 				c := fsMkColl(101, "c1", "src-dml_0")
 				c.Shards[0].Script = fsTail(append([]fsPack{}, script...), mc)
-				sc := &fsScenario{Name: fmt.Sprintf("gen:%s/b%d/%s", names[i], mc, mode), Colls: []*fsColl{c}, Tasks: []fsTask{{ID: "t0", URI: fsURI, Coll: "c1"}}, MaxCount: mc, Bound: &one, Gen: true}
+				sc := &fsScenario{Name: fmt.Sprintf("gen:%s/b%d/%s", names[i], mc, mode), Colls: []*fsColl{c}, Tasks: []fsTask{{ID: "t0", URI: fsURI, Coll: "c1"}}, MaxCount: mc, MaxMsgKB: 1, Bound: &one, Gen: true}
 				switch mode {
 				case "crash":
 					sc.Crash = true
